@@ -1,5 +1,5 @@
 /-
-  C03b — Radius / KNearest at the facade: the stored history is exactly the rows of the accepted
+  C03b — Radius / KNearest / LSHNearest at the facade: the stored history is exactly the rows of the accepted
   training calls since the last `fit`, in order.
 
   `radius_exact` / `knn_valid` (C03) say which *stored* rows a query uses.  That the stored rows are the
@@ -19,6 +19,7 @@ variable {α : Type} [DecidableEq α]
 def NPCfg.isStored : NPCfg → Bool
   | .radius .. => true
   | .knn .. => true
+  | .lsh .. => true
   | _ => false
 
 /-- what one accepted call does to the delivered rows -/
@@ -38,7 +39,7 @@ def Bandit.delivered (le : Expect → Expect → Bool) (b : Bandit α) (cur : Ba
 theorem npBinarize_noBinz (lp : LP α) (batch : Batch α) (h : lp.binz = none) : npBinarize lp batch = (lp, batch) := by
   unfold npBinarize; rw [h]; cases lp.kind <;> rfl
 
-/-- one training-side call on a Radius / KNearest bandit without binarizer -/
+/-- one training-side call on a Radius / KNearest / LSHNearest bandit without binarizer -/
 theorem step_hist (le : Expect → Expect → Bool) (b : Bandit α) (op : Op α) (o : Oracle) (g : Rng)
     (hi : BInv b) (hnp : b.np.isStored = true) (hbz : b.lp.binz = none) (ht : op.isTraining = true) :
     (b.step le op o g).1.lp.binz = none ∧
@@ -62,7 +63,7 @@ theorem step_hist (le : Expect → Expect → Bool) (b : Bandit α) (op : Op α)
         | some e => simp [hs] at hr
         | none =>
           cases hk : b.np <;> simp [hk, NPCfg.isStored] at hnp <;>
-            simp [Bandit.deliverOne, hs, Bandit.impFit, hk, npBinarize_noBinz _ _ hbz, hbz]
+            simp [Bandit.deliverOne, lshFitOp, hs, Bandit.impFit, hk, npBinarize_noBinz _ _ hbz, hbz]
     | partialFit a =>
       simp only [Bandit.step, Bandit.train, Bool.true_and] at hr ⊢
       cases hv : b.validateTrain a with
@@ -74,10 +75,10 @@ theorem step_hist (le : Expect → Expect → Bool) (b : Bandit α) (op : Op α)
         | none =>
           by_cases hf : b.isFit = true
           · cases hk : b.np <;> simp [hk, NPCfg.isStored] at hnp <;>
-              simp [Bandit.deliverOne, hs, hf, Bandit.impPartialFit, hk, npBinarize_noBinz _ _ hbz, hbz]
+              simp [Bandit.deliverOne, lshFitOp, hs, hf, Bandit.impPartialFit, hk, npBinarize_noBinz _ _ hbz, hbz]
           · simp only [Bool.not_eq_true] at hf
             cases hk : b.np <;> simp [hk, NPCfg.isStored] at hnp <;>
-              simp [Bandit.deliverOne, hs, hf, Bandit.impFit, hk, npBinarize_noBinz _ _ hbz, hbz]
+              simp [Bandit.deliverOne, lshFitOp, hs, hf, Bandit.impFit, hk, npBinarize_noBinz _ _ hbz, hbz]
     | addArm arg binz callable =>
       cases binz with
       | some f => simp [Op.isTraining] at ht
@@ -115,8 +116,8 @@ theorem step_hist (le : Expect → Expect → Bool) (b : Bandit α) (op : Op α)
     | predictExp a => simp [Op.isTraining] at ht
     | warmStart w => simp [Op.isTraining] at ht
 
-/-- **C03 at the facade.**  After any facade history of training-side calls on a Radius / KNearest bandit
-    (no binarizer) the stored history is exactly what the accepted calls delivered since the last `fit`. -/
+/-- **C03 at the facade.**  After any facade history of training-side calls on a Radius / KNearest /
+    LSHNearest bandit (no binarizer) the stored history is exactly what the accepted calls delivered since the last `fit`. -/
 theorem runHist_hist (le : Expect → Expect → Bool) (h : History α) : ∀ b : Bandit α, BInv b →
     b.np.isStored = true → b.lp.binz = none → (∀ c ∈ h, c.1.isTraining = true) →
     (b.runHist le h).hist = b.delivered le b.hist h := by
